@@ -306,9 +306,15 @@ class RecordingEvaluator:
             for j in range(self.n_con):
                 if c.active_constraints is not None:
                     vals[~c.active_constraints[j, c.realizations], self.n_obj + j] = -self.garbage - j
+        dt = self.spec.get("out_dtype")
+        if dt:
+            # a simulator that hands over single-precision arrays: the values it returned are these (exactly), the estimates are
+            # computed from them in double precision
+            vals = vals.astype(dt).astype(np.float64)
         c.objectives = vals[:, : self.n_obj].copy()
         c.constraints = vals[:, self.n_obj:].copy() if self.n_con else None
-        res = EvaluatorResult(objectives=c.objectives.copy(), constraints=None if c.constraints is None else c.constraints.copy(),
+        res = EvaluatorResult(objectives=c.objectives.astype(dt) if dt else c.objectives.copy(),
+                              constraints=None if c.constraints is None else (c.constraints.astype(dt) if dt else c.constraints.copy()),
                               batch_id=k)
         c.returned = res
         return res
